@@ -100,6 +100,36 @@ example :
     ct' = C02.exCt ∧
     (upload C02.exE C02.exPrm C02.exEncode C02.exSer ct').block 0 1 = exHonestV.block 1 := by decide
 
+/-- **post_repair_healthy_implies_N_good**: `_gather_repair_results` merges the verified pre-repair sharemap with
+    the upload results' sharemap.  `goodNow srv sh` = "share `sh` on server `srv` verifies good in the grid as it
+    is after the repair" (a function of the grid state only).  Provided the pre-repair verified shares are still
+    good (they are untouched: `repair_never_alters_good_shares`) and the upload results' sharemap lists only
+    shares the upload really wrote (regenerated = genuine: `repair_regenerates_identical_shares`) — NOT shares a
+    server merely claimed to hold — a post-repair "healthy" / `repair_successful` means N distinct share numbers
+    each verified good somewhere, and `count_shares_good` counts distinct good share numbers. -/
+theorem post_repair_healthy_implies_N_good (k n : Nat) (pre : List ServerResult) (ur : List (Nat × Nat))
+    (goodNow : Nat → Nat → Prop)
+    (hpre : ∀ r ∈ pre, ∀ sh ∈ r.verified, goodNow r.server sh)
+    (hur : ∀ sh srv, (sh, srv) ∈ ur → goodNow srv sh) :
+    (∀ sh ∈ postRepairKeys pre ur, ∃ srv, goodNow srv sh) ∧ (postRepairKeys pre ur).Nodup ∧
+    (gatherRepairResults k n pre ur).countGood = (postRepairKeys pre ur).length ∧
+    ((gatherRepairResults k n pre ur).healthy = true → n ≤ (postRepairKeys pre ur).length) ∧
+    ((gatherRepairResults k n pre ur).recoverable = true → k ≤ (postRepairKeys pre ur).length) := by
+  obtain ⟨h1, h2⟩ := postRepairKeys_spec pre ur
+  refine ⟨?_, h1, rfl, by simp [gatherRepairResults], by simp [gatherRepairResults]⟩
+  intro sh hsh
+  rcases (h2 sh).mp hsh with ⟨r, hr, hv⟩ | ⟨srv, hs⟩
+  · exact ⟨r.server, hpre r hr sh hv⟩
+  · exact ⟨srv, hur sh srv hs⟩
+
+/-- 3-of-4: shares 0,1 verified before the repair, share 2 found corrupt on server 2, share 3 missing.  An upload
+    that reports only what it wrote (share 3) gives "not healthy, 3 good"; one that also reports the share server 2
+    merely claims to hold gives "healthy, 4 good" although only 3 good shares exist (the hypothesis `hur` fails). -/
+example :
+    let pre : List ServerResult := [⟨0, [0], [], [], true⟩, ⟨1, [1], [], [], true⟩, ⟨2, [], [2], [], true⟩]
+    gatherRepairResults 3 4 pre [(3, 3)] = ⟨false, true, 3⟩ ∧
+    gatherRepairResults 3 4 pre [(3, 3), (2, 2)] = ⟨true, true, 4⟩ := by decide
+
 /-- **repair_never_alters_good_shares** (abstract storage behaviour, C22): a share a server already holds is
     reported `alreadygot`, no writer is handed out for it, a write closing onto it changes nothing, and after the
     repair upload every share that was there is still there with the same bytes. -/
